@@ -185,6 +185,14 @@ struct Extractor {
         for (const TemplateArgument &A : Spec->getTemplateArgs().asArray()) {
           if (A.getKind() == TemplateArgument::Type) targs.push_back(typeOf(A.getAsType()));
           else if (A.getKind() == TemplateArgument::Integral) targs.push_back(json::Object{{"int", (int64_t)A.getAsIntegral().getExtValue()}});
+          else if (A.getKind() == TemplateArgument::Pack) {
+            json::Array pk;
+            for (const TemplateArgument &P : A.pack_elements()) {
+              if (P.getKind() == TemplateArgument::Type) pk.push_back(typeOf(P.getAsType()));
+              else pk.push_back(nullptr);
+            }
+            targs.push_back(std::move(pk));
+          }
           else targs.push_back(nullptr);
         }
         o["targs"] = std::move(targs);
